@@ -7,4 +7,6 @@
 #define VAR_TAG(m, f, s) (((m) + 2 * (f) + (s) / 2) % 2)          /* with / without tag */
 #define VAR_NLAZY(m, f, s) (((m) * 5 + (f) * 3 + (s)) % 3)        /* number of lazily evaluated callables streamed */
 #define VAR_SEV2(m, f, s) (((s) * 2 + (m) + (f)) % 7)             /* severity of the second statement, 6 = none */
+#define VAR_REPEAT(m, f, s) ((((m) + (s) + (f) / 2) % 2) == 0) /* after the statement(s): both runtime thresholds are set AGAIN (new symbolic values) and a
+                                                                      further statement of the same severity (one expression, one lazy callable) is issued */
 #endif
